@@ -353,6 +353,9 @@ pub proof fn lemma_okey_prefix_free(a: PropertyValue, b: PropertyValue)
 // ---------------------------------------------------------------- the real encoder
 //@extract nervusdb-storage/src/index/ordered_key.rs encode_ordered_value ret out
 //@| ensures out@ == okey(*v),
+//@proof before 1 "@start"
+//@| // operand order of the bit operations is irrelevant to the proof
+//@| assert(forall|x: u64, y: u64| #![auto] x ^ y == y ^ x) by (bit_vector);
 //@rewrite "u8::from(*b)" => "(if *b { 1u8 } else { 0u8 })"
 //@rewrite "u.to_be_bytes()" => "v_u64_to_be_bytes(u)"
 //@rewrite "sortable.to_be_bytes()" => "v_u64_to_be_bytes(sortable)"
